@@ -6,7 +6,7 @@
     text_roundtrip attr_roundtrip text_no_markup attr_no_breakout
     text_roundtrip_xml_partial attr_roundtrip_xml_partial
     reread_nostrip reread_strip strip_commutes_escape site_yields_plain markup_add_escapes
-    structure_preserved render_stream_ok
+    structure_preserved_partial render_stream_ok hole_is_data emit_both_implementations
     attrs_site_partial attrs_site_none_removes attrs_site_others_untouched attrs_blank_dropped
     script_text_is_raw div_text_is_escaped attr_name_not_escaped
     text_cr_not_recovered_xml attr_lf_not_recovered_xml control_char_not_wellformed_xml
@@ -420,20 +420,36 @@ theorem attrs_blank_dropped :
 
 /-! ## the composition -/
 
-/-- **structure_preserved.**  For every template of the grammar (a tree whose leaves are
-    substitution sites), every environment, all three methods and both whitespace settings:
-    re-reading the rendered output gives exactly the skeleton of the template — its elements and
-    attributes, loops unrolled — with every substituted value as character data or attribute
-    value, verbatim (`expectedList` mentions no escaping); with `strip_whitespace` each run of
-    character data is normalised as documented.
+/-- **structure_preserved.**
+
+    FULL STATEMENT (the property): for every template of the grammar (a tree whose leaves are
+    substitution sites), every environment, all three methods and both whitespace settings,
+    re-reading the rendered output gives the skeleton of the template with every value that is
+    not marked safe as character data or attribute value, verbatim (trimmed at `py:attrs`),
+    except inside script/style under html and inside CDATA.
+    The full statement is FALSE of the code: `attrs_blank_dropped` (py:attrs drops blank values),
+    `attr_lf_not_recovered_xml`, `text_cr_not_recovered_xml`, `control_char_not_wellformed_xml`
+    (what a conforming XML processor does to TAB/LF/CR and non-Char characters).
+
+    PROVED: for every template of the grammar, every environment, all three methods and both
+    whitespace settings, with the specification-side reader `readDoc`: re-reading gives exactly
+    `expectedList env T` — the elements and attributes written in the template, loops unrolled,
+    every substituted value verbatim as character data / attribute value (`expectedList` mentions
+    no escaping) — with each run of character data normalised as documented under `strip_whitespace`.
 
     Hypotheses (each decidable, reported per generated case by the driver):
-    `nodesOkB` — element / attribute names are names the serializer writes plainly, no
-    script/style/pre/textarea, html void elements are empty, markup written by the template
-    author in `Markup` operators is plain escaped text (format strings: no `& < >`), values
-    *marked safe* are plain escaped text; `listOk` — operands of `Markup` operators are
-    str / Markup / `__html__` objects and `%` does not raise (domain of C18). -/
-theorem structure_preserved (m : Method) (strip : Bool) (T : List Node) (env : Env)
+    `nodesOkB` — element / attribute names are names the serializer writes plainly (no boolean or
+    prefixed attribute names), no script/style (the property's exception) and no pre/textarea
+    (MISSING: whitespace-preserving elements under stripping), html void elements are empty,
+    markup written by the template author inside `Markup` operators is plain escaped text, format
+    strings contain no `& < >` (MISSING: author markup with tags there — covered at character level
+    by `hole_is_data`), values *marked safe* are plain escaped text (the property does not constrain
+    safe values, but a safe value with tags puts the whole template outside this theorem);
+    `listOk` — operands of `Markup` operators are str / Markup / `__html__` objects and `%` does
+    not raise (domain of C18).  `py:attrs` is covered as the code is (blank values dropped); its
+    value-level statement is `attrs_site_partial`.  XML-level normalisation is outside `readDoc`;
+    see `text_roundtrip_xml_partial` / `attr_roundtrip_xml_partial`. -/
+theorem structure_preserved_partial (m : Method) (strip : Bool) (T : List Node) (env : Env)
     (hT : nodesOkB m T = true) (hdom : listOk env T = true) (henv : EnvOk env) :
     readDoc m (serialize m strip (renderList env T)) =
       some (if strip then coalesceStrip (expectedList env T) else coalesce (expectedList env T)) := by
@@ -452,6 +468,36 @@ theorem structure_preserved (m : Method) (strip : Bool) (T : List Node) (env : E
     have := hteq flushDataS [] []
     simp only [List.append_nil, ← coalesceStripGo_eq_with] at this
     simp [coalesceStrip, this]
+
+/-- **A hole in author markup is data.**  Whatever markup the template author wrote before a
+    substitution (a `Markup` format string, a `Markup` concatenated in front, a tag with an
+    attribute whose value is the hole): if the reader is reading character data, or is inside a
+    double-quoted attribute value, when it reaches the escaped value, then it is in the same mode
+    after it and has only collected the value.  (Together with C18's `mod_safe_once`,
+    `add_safe_once`, `join_safe_once` — every operand that is not safe is escaped exactly once
+    — this is C01 for `Markup` operators with arbitrary author markup.) -/
+theorem hole_is_data (m : Method) (st : RS) (v : List Char) :
+    (∀ q, st.mode = .text → run m st (escapePy q v) = some { st with buf := st.buf ++ escapePy q v }) ∧
+    (st.mode = .attrVal → run m st (escapePy true v) = some { st with buf := st.buf ++ escapePy true v }) := by
+  constructor
+  · intro q hm
+    apply run_text_chars m _ _ st hm
+    intro c hc
+    rw [escapePy_eq_spec] at hc
+    exact (escapeSpec_chars q v c hc).1
+  · intro hm
+    apply run_attrVal_chars m _ _ st hm
+    intro c hc
+    rw [escapePy_eq_spec] at hc
+    exact (escapeSpec_chars true v c hc).2.2 rfl
+
+/-- Both `Markup` implementations write the same bytes: the C scan of `_speedups.c` on the
+    UTF-8 of a value is the UTF-8 of what the model's emitters (the Python chain) produce
+    (C18: `escapeC_eq_escapePy`). -/
+theorem emit_both_implementations (m : Method) (v : List Char) :
+    (escapeCBytes false (utf8 v)).1 = utf8 (emitText m v) ∧
+    (escapeCBytes true (utf8 v)).1 = utf8 (emitAttr v) :=
+  ⟨Genshi.Props.C18.escapeC_eq_escapePy false v, Genshi.Props.C18.escapeC_eq_escapePy true v⟩
 
 /-- The rendered stream of a template of the grammar is always one the serializer / reader
     theorems apply to, and its START / END skeleton is the template's. -/
